@@ -135,7 +135,9 @@ def grid(spec):
     if r:
         # (range ends move by an ulp under unit conversion; stay a hair inside)
         pts += [r[0] * (1 + 1e-9), r[1] * (1 - 1e-9), 0.5 * (r[0] + r[1]), r[0] + 0.123 * (r[1] - r[0])]
-        pts = [t for t in pts if r[0] * (1 + 1e-9) <= t <= r[1] * (1 - 1e-9)] or [0.5 * (r[0] + r[1])]
+        pts = [t for t in pts if r[0] * (1 + 1e-9) <= t <= r[1] * (1 - 1e-9)]
+        if not pts and r[1] - r[0] > 1e-6 * r[1]:
+            pts = [0.5 * (r[0] + r[1])]      # (a one-point range leaves nothing that survives a unit conversion of its bounds)
     return sorted(set(pts))
 
 
@@ -244,9 +246,37 @@ def check_lib(ctx, case):
         lib, text = load_presentation(['C(G0)'], [sp], None, [p])
     except Exception:
         ctx.event('P4:rejected')
+        p4_multifile(ctx, case, sp, p, which)
         return
     ctx.fail('unitless-dimensional-value-accepted:%s' % which,
              'a library whose %s is a bare number with no unit available loaded silently:\n%s' % (which, text))
+
+
+def p4_multifile(ctx, case, sp, p, which):
+    """the unit-less value sits in an included file of its own; a sibling / the root declare default units for
+    THEIR data.  Units are per file: it must still be rejected, whatever the include order."""
+    groups_ok = {'C(G1)': abstract(case['specs'][0])}
+    blk = case['block']
+    ok_pres = dict(H=('default', blk['molar enthalpy']), S=('default', blk['molar entropy']), Cp=('default', blk['molar heat capacity']),
+                   T=('default', blk['temperature']))
+    for order in (['a.yaml', 'b.yaml'], ['b.yaml', 'a.yaml']):
+        for root_units in (None, blk):
+            with LG.TempLib() as tl:
+                tl.write('a.yaml', LG.render_file(groups_ok, lambda nm: ok_pres, units_block=blk))
+                tl.write('b.yaml', LG.render_file({'C(G0)': abstract(sp)}, lambda nm: p))
+                tl.write('library.yaml', LG.render_file({}, None, units_block=root_units, include=order))
+                ctx.count()
+                ctx.event('P4-multifile')
+                try:
+                    with warnings.catch_warnings():
+                        warnings.simplefilter('ignore')
+                        _pg()['Load'](tl.path())
+                except Exception:
+                    continue
+            ctx.fail('unitless-dimensional-value-accepted:included-file:%s' % which,
+                     'an included file whose %s is a bare number and which has no units block was accepted (include order %s, root units %s)'
+                     % (which, order, 'declared' if root_units else 'none'))
+            return
 
 
 FAMILIES = [
